@@ -35,13 +35,39 @@ def Vec.wf : Vec → Bool
   | .union _ vs _ => Vecs.wf vs
   | .named _ v => Vec.wf v
   | .error v _ => Vec.wf v
-  | .missing _ => true
+  | .missing _ => false
 def FVecs.wf : FVecs → Bool
   | .nil => true
   | .cons _ v rest => Vec.wf v && FVecs.wf rest
 def Vecs.wf : Vecs → Bool
   | .nil => true
   | .cons v rest => Vec.wf v && Vecs.wf rest
+end
+
+def bitmapClear : Bitmap → Bool
+  | none => true
+  | some F => F.all (!·)
+
+theorem bitmapClear_get {b : Bitmap} (h : bitmapClear b = true) (s : Nat) : b.get s = false := by
+  cases b with
+  | none => rfl
+  | some F =>
+    simp only [bitmapClear, List.all_eq_true, Bool.not_eq_true'] at h
+    simp only [Bitmap.get, List.getD_eq_getElem?_getD]
+    cases hs : F[s]? with
+    | none => rfl
+    | some x => simpa using h x (List.mem_of_getElem? hs)
+
+mutual
+/-- error wrappers (reached through records / named / error) never carry a null of their own. -/
+def Vec.errClear : Vec → Bool
+  | .error v nulls => bitmapClear nulls && Vec.errClear v
+  | .named _ v => Vec.errClear v
+  | .record fs _ _ => FVecs.errClear fs
+  | _ => true
+def FVecs.errClear : FVecs → Bool
+  | .nil => true
+  | .cons _ v rest => Vec.errClear v && FVecs.errClear rest
 end
 
 mutual
@@ -195,14 +221,14 @@ theorem loadCols_wf : ∀ (cs : Cols) (vs : Vecs), Cols.leafOK cs = true → loa
 end
 
 def PSpec (P : Proj) : Prop :=
-  ∀ (t : Ty) (v : Vec) (D : Nat → Prop) (val : Nat → Val), flatTy t = true → vecType v = t →
-    Vec.wf v = true →
+  ∀ (t : Ty) (v : Vec) (D : Nat → Prop) (val : Nat → Val), vecType v = t →
+    Vec.wf v = true → Vec.errClear v = true →
     (∀ s, D s → serialize v s = some (val s)) → (∀ s, D s → conforms t (val s) = true) →
     vecType (projVec P v) = projTy P t ∧ ∀ s, D s → serialize (projVec P v) s = some (projVal P t (val s))
 
 def FSpec (fs : PFields) : Prop :=
   ∀ (rfs : FVecs) (rtys : Fields) (len : Nat) (D : Nat → Prop) (rows : Nat → List Val),
-    flatFields rtys = true → fvecTypes rfs = rtys → FVecs.wf rfs = true →
+    fvecTypes rfs = rtys → FVecs.wf rfs = true → FVecs.errClear rfs = true →
     (∀ s, D s → serializeFields rfs s = some (rows s)) →
     (∀ s, D s → conformsRow rtys (rows s) = true) →
     fvecTypes (projFieldVecs fs rfs len) = projFieldTys fs rtys ∧
@@ -210,22 +236,22 @@ def FSpec (fs : PFields) : Prop :=
 
 /-- what looking a field name up gives on the vector side and on the type side. -/
 theorem lookup_compat (a : Bytes) : ∀ (rfs : FVecs) (rtys : Fields), fvecTypes rfs = rtys →
-    flatFields rtys = true → FVecs.wf rfs = true →
+    FVecs.wf rfs = true → FVecs.errClear rfs = true →
     (rfs.lookup a = none ∧ rtys.lookup a = none) ∨
     (∃ fv i ft, rfs.lookup a = some fv ∧ rtys.lookup a = some (i, ft) ∧ vecType fv = ft ∧
-      flatTy ft = true ∧ Vec.wf fv = true ∧
+      Vec.wf fv = true ∧ Vec.errClear fv = true ∧
       (∀ s xs, serializeFields rfs s = some xs → serialize fv s = some (xs.getD i .null)) ∧
       (∀ row, conformsRow rtys row = true → conforms ft (row.getD i .null) = true))
   | .nil, rtys, h, _, _ => by
     simp only [fvecTypes] at h; subst h
     exact Or.inl ⟨rfl, rfl⟩
-  | .cons n fv rest, rtys, h, hflat, hwf => by
+  | .cons n fv rest, rtys, h, hwf, hec => by
     simp only [fvecTypes] at h; subst h
-    simp only [flatFields, Bool.and_eq_true] at hflat
     simp only [FVecs.wf, Bool.and_eq_true] at hwf
+    simp only [FVecs.errClear, Bool.and_eq_true] at hec
     by_cases hn : n = a
     · subst hn
-      refine Or.inr ⟨fv, 0, vecType fv, by simp [FVecs.lookup], by simp [Fields.lookup], rfl, hflat.1, hwf.1, ?_, ?_⟩
+      refine Or.inr ⟨fv, 0, vecType fv, by simp [FVecs.lookup], by simp [Fields.lookup], rfl, hwf.1, hec.1, ?_, ?_⟩
       · intro s xs hx
         simp only [serializeFields] at hx
         cases h1 : serialize fv s with
@@ -239,7 +265,7 @@ theorem lookup_compat (a : Bytes) : ∀ (rfs : FVecs) (rtys : Fields), fvecTypes
         cases row with
         | nil => exact absurd rfl this.1
         | cons x xs => simpa [headV] using this.2.1
-    · rcases lookup_compat a rest (fvecTypes rest) rfl hflat.2 hwf.2 with ⟨h1, h2⟩ | ⟨fv', i, ft, h1, h2, h3, h4, h4', h5, h6⟩
+    · rcases lookup_compat a rest (fvecTypes rest) rfl hwf.2 hec.2 with ⟨h1, h2⟩ | ⟨fv', i, ft, h1, h2, h3, h4, h4', h5, h6⟩
       · exact Or.inl ⟨by simp [FVecs.lookup, hn, h1], by simp [Fields.lookup, hn, h2]⟩
       · refine Or.inr ⟨fv', i + 1, ft, by simp [FVecs.lookup, hn, h1], by simp [Fields.lookup, hn, h2], h3, h4, h4', ?_, ?_⟩
         · intro s xs hx
@@ -260,18 +286,81 @@ theorem lookup_compat (a : Bytes) : ∀ (rfs : FVecs) (rtys : Fields), fvecTypes
 
 theorem vecType_missing (len : Nat) : vecType (.missing len) = missingTy := rfl
 
+theorem projVec_error (fs : PFields) (v : Vec) (nulls : Bitmap) :
+    projVec (.fields fs) (.error v nulls) = .error (projVec (.fields fs) v) nulls := by
+  simp [projVec, Vec.peel, Vec.rewrap]
+
+theorem projTy_error (fs : PFields) (t : Ty) :
+    projTy (.fields fs) (.error t) = .error (projTy (.fields fs) t) := by
+  simp [projTy, Ty.peel, Ty.rewrap]
+
+theorem projVal_error (fs : PFields) (t : Ty) (x : Val) :
+    projVal (.fields fs) (.error t) x = projVal (.fields fs) t x := by
+  simp [projVal, Ty.peel]
+
+/-- a leaf vector projects to `missing`. -/
+theorem leaf_proj (fs : PFields) (t : Ty) (hleaf : isLeafTy t = true) (v : Vec) (hty : vecType v = t)
+    (hwf : Vec.wf v = true) (D : Nat → Prop) (val : Nat → Val) :
+    vecType (projVec (.fields fs) v) = projTy (.fields fs) t ∧
+    ∀ s, D s → serialize (projVec (.fields fs) v) s = some (projVal (.fields fs) t (val s)) := by
+  have hT : projTy (.fields fs) t = missingTy := by
+    cases t <;> simp [isLeafTy] at hleaf <;> simp [projTy, Ty.peel, Ty.rewrap]
+  have hV : ∀ x, projVal (.fields fs) t x = missingVal := by
+    intro x; cases t <;> simp [isLeafTy] at hleaf <;> simp [projVal, Ty.peel]
+  cases v with
+  | flat t' vals nulls => exact ⟨by simp [projVec, Vec.peel, Vec.rewrap, vecType, hT], fun s _ => by simp [projVec, Vec.peel, Vec.rewrap, serialize, hV]⟩
+  | dict t' es idx nulls => exact ⟨by simp [projVec, Vec.peel, Vec.rewrap, vecType, hT], fun s _ => by simp [projVec, Vec.peel, Vec.rewrap, serialize, hV]⟩
+  | const t' x len nulls => exact ⟨by simp [projVec, Vec.peel, Vec.rewrap, vecType, hT], fun s _ => by simp [projVec, Vec.peel, Vec.rewrap, serialize, hV]⟩
+  | constNull len => exact ⟨by simp [projVec, Vec.peel, Vec.rewrap, vecType, hT], fun s _ => by simp [projVec, Vec.peel, Vec.rewrap, serialize, hV]⟩
+  | missing len => simp [Vec.wf] at hwf
+  | record _ _ _ => simp only [vecType] at hty; subst hty; simp [isLeafTy] at hleaf
+  | array _ _ _ => simp only [vecType] at hty; subst hty; simp [isLeafTy] at hleaf
+  | set _ _ _ => simp only [vecType] at hty; subst hty; simp [isLeafTy] at hleaf
+  | map _ _ _ _ => simp only [vecType] at hty; subst hty; simp [isLeafTy] at hleaf
+  | union _ _ _ => simp only [vecType] at hty; subst hty; simp [isLeafTy] at hleaf
+  | named _ _ => simp only [vecType] at hty; subst hty; simp [isLeafTy] at hleaf
+  | error _ _ => simp only [vecType] at hty; subst hty; simp [isLeafTy] at hleaf
+
+/-- a container vector (array / set / map / union) is projected whole. -/
+theorem whole_proj (fs : PFields) (t : Ty) (v : Vec) (hty : vecType v = t) (hwf : Vec.wf v = true)
+    (hcont : ∀ n t', t ≠ .named n t') (hne : ∀ t', t ≠ .error t') (hnr : ∀ rfs, t ≠ .record rfs)
+    (hnl : isLeafTy t = false) :
+    projVec (.fields fs) v = v ∧ projTy (.fields fs) t = t ∧ ∀ x, projVal (.fields fs) t x = x := by
+  cases v with
+  | array offs cv nulls =>
+    simp only [vecType] at hty; subst hty
+    exact ⟨by simp [projVec, Vec.peel, Vec.rewrap], by simp [projTy, Ty.peel, Ty.rewrap], fun x => by simp [projVal, Ty.peel]⟩
+  | set offs cv nulls =>
+    simp only [vecType] at hty; subst hty
+    exact ⟨by simp [projVec, Vec.peel, Vec.rewrap], by simp [projTy, Ty.peel, Ty.rewrap], fun x => by simp [projVal, Ty.peel]⟩
+  | map offs k w nulls =>
+    simp only [vecType] at hty; subst hty
+    exact ⟨by simp [projVec, Vec.peel, Vec.rewrap], by simp [projTy, Ty.peel, Ty.rewrap], fun x => by simp [projVal, Ty.peel]⟩
+  | union tags vs nulls =>
+    simp only [vecType] at hty; subst hty
+    exact ⟨by simp [projVec, Vec.peel, Vec.rewrap], by simp [projTy, Ty.peel, Ty.rewrap], fun x => by simp [projVal, Ty.peel]⟩
+  | flat t' _ _ => simp only [vecType] at hty; subst hty; simp [Vec.wf] at hwf; simp [hwf] at hnl
+  | dict t' _ _ _ => simp only [vecType] at hty; subst hty; simp [Vec.wf] at hwf; simp [hwf] at hnl
+  | const t' _ _ _ => simp only [vecType] at hty; subst hty; simp [Vec.wf] at hwf; simp [hwf] at hnl
+  | constNull _ => simp only [vecType] at hty; subst hty; simp [isLeafTy] at hnl
+  | missing _ => simp [Vec.wf] at hwf
+  | record rfs _ _ => simp only [vecType] at hty; exact absurd hty.symm (hnr _)
+  | named n v' => simp only [vecType] at hty; exact absurd hty.symm (hcont _ _)
+  | error v' _ => simp only [vecType] at hty; exact absurd hty.symm (hne _)
+
 /-- the `.fields` case of the projection, given the fields-level statement. -/
 theorem fieldsCase (fs : PFields) (h : FSpec fs) : ∀ (t : Ty) (v : Vec) (D : Nat → Prop) (val : Nat → Val),
-    flatTy t = true → vecType v = t → Vec.wf v = true →
+    vecType v = t → Vec.wf v = true → Vec.errClear v = true →
     (∀ s, D s → serialize v s = some (val s)) → (∀ s, D s → conforms t (val s) = true) →
     vecType (projVec (.fields fs) v) = projTy (.fields fs) t ∧
     ∀ s, D s → serialize (projVec (.fields fs) v) s = some (projVal (.fields fs) t (val s))
-  | .named n t, v, D, val, hflat, hty, hwf, hser, hconf => by
+  | .named n t, v, D, val, hty, hwf, hec, hser, hconf => by
     cases v with
     | named n' v' =>
       simp only [vecType, Ty.named.injEq] at hty
       obtain ⟨rfl, hty'⟩ := hty
-      obtain ⟨a, b⟩ := fieldsCase fs h t v' D val (by simpa [flatTy] using hflat) hty' (by simpa [Vec.wf] using hwf)
+      obtain ⟨a, b⟩ := fieldsCase fs h t v' D val hty' (by simpa [Vec.wf] using hwf)
+        (by simpa [Vec.errClear] using hec)
         (fun s hs => by simpa [serialize] using hser s hs) (fun s hs => by simpa [conforms] using hconf s hs)
       rw [projVec_named, projTy_named]
       refine ⟨by simp [vecType, a], fun s hs => ?_⟩
@@ -280,23 +369,31 @@ theorem fieldsCase (fs : PFields) (h : FSpec fs) : ∀ (t : Ty) (v : Vec) (D : N
     | dict t' _ _ _ => simp only [vecType] at hty; subst hty; simp [Vec.wf, isLeafTy] at hwf
     | const t' _ _ _ => simp only [vecType] at hty; subst hty; simp [Vec.wf, isLeafTy] at hwf
     | _ => simp [vecType, missingTy] at hty
-  | .prim id, v, D, val, _, hty, hwf, _, _ => by
-    have hT : projTy (.fields fs) (.prim id) = missingTy := by simp [projTy, Ty.peel, Ty.rewrap]
-    have hV : ∀ x, projVal (.fields fs) (.prim id) x = missingVal := by intro x; simp [projVal, Ty.peel]
+  | .error t, v, D, val, hty, hwf, hec, hser, hconf => by
     cases v with
-    | flat t vals nulls => exact ⟨by simp [projVec, Vec.peel, Vec.rewrap, vecType, hT], fun s _ => by simp [projVec, Vec.peel, Vec.rewrap, serialize, hV]⟩
-    | dict t es idx nulls => exact ⟨by simp [projVec, Vec.peel, Vec.rewrap, vecType, hT], fun s _ => by simp [projVec, Vec.peel, Vec.rewrap, serialize, hV]⟩
-    | const t x len nulls => exact ⟨by simp [projVec, Vec.peel, Vec.rewrap, vecType, hT], fun s _ => by simp [projVec, Vec.peel, Vec.rewrap, serialize, hV]⟩
-    | constNull len => exact ⟨by simp [projVec, Vec.peel, Vec.rewrap, vecType, hT], fun s _ => by simp [projVec, Vec.peel, Vec.rewrap, serialize, hV]⟩
-    | _ => simp [vecType, missingTy] at hty
-  | .record rtys, v, D, val, hflat, hty, hwf, hser, hconf => by
+    | error v' nulls =>
+      simp only [vecType, Ty.error.injEq] at hty
+      simp only [Vec.errClear, Bool.and_eq_true] at hec
+      have hg := bitmapClear_get hec.1
+      obtain ⟨a, b⟩ := fieldsCase fs h t v' D val hty (by simpa [Vec.wf] using hwf) hec.2
+        (fun s hs => by simpa [serialize, hg s] using hser s hs) (fun s hs => by simpa [conforms] using hconf s hs)
+      rw [projVec_error, projTy_error]
+      refine ⟨by simp [vecType, a], fun s hs => ?_⟩
+      rw [projVal_error]; simpa [serialize, hg s] using b s hs
+    | flat t' _ _ => simp only [vecType] at hty; subst hty; simp [Vec.wf, isLeafTy] at hwf
+    | dict t' _ _ _ => simp only [vecType] at hty; subst hty; simp [Vec.wf, isLeafTy] at hwf
+    | const t' _ _ _ => simp only [vecType] at hty; subst hty; simp [Vec.wf, isLeafTy] at hwf
+    | missing _ => simp [Vec.wf] at hwf
+    | _ => simp [vecType] at hty
+  | .prim id, v, D, val, hty, hwf, _, _, _ => leaf_proj fs _ rfl v hty hwf D val
+  | .enum syms, v, D, val, hty, hwf, _, _, _ => leaf_proj fs _ rfl v hty hwf D val
+  | .record rtys, v, D, val, hty, hwf, hec, hser, hconf => by
     cases v with
     | record rfs len nulls =>
       simp only [vecType, Ty.record.injEq] at hty
-      have hflat' : flatFields rtys = true := by simpa [flatTy] using hflat
       -- the rows at the slots where the record is not null
-      obtain ⟨h1, h2⟩ := h rfs rtys len (fun s => D s ∧ nulls.get s = false) (fun s => (val s).items) hflat' hty
-        (by simpa [Vec.wf] using hwf)
+      obtain ⟨h1, h2⟩ := h rfs rtys len (fun s => D s ∧ nulls.get s = false) (fun s => (val s).items) hty
+        (by simpa [Vec.wf] using hwf) (by simpa [Vec.errClear] using hec)
         (by
           intro s ⟨hs, hn⟩
           have := hser s hs
@@ -343,17 +440,23 @@ theorem fieldsCase (fs : PFields) (h : FSpec fs) : ∀ (t : Ty) (v : Vec) (D : N
     | dict t' _ _ _ => simp only [vecType] at hty; subst hty; simp [Vec.wf, isLeafTy] at hwf
     | const t' _ _ _ => simp only [vecType] at hty; subst hty; simp [Vec.wf, isLeafTy] at hwf
     | _ => simp [vecType, missingTy] at hty
-  | .enum _, _, _, _, h, _, _, _, _ => by simp [flatTy] at h
-  | .array _, _, _, _, h, _, _, _, _ => by simp [flatTy] at h
-  | .set _, _, _, _, h, _, _, _, _ => by simp [flatTy] at h
-  | .map _ _, _, _, _, h, _, _, _, _ => by simp [flatTy] at h
-  | .union _, _, _, _, h, _, _, _, _ => by simp [flatTy] at h
-  | .error _, _, _, _, h, _, _, _, _ => by simp [flatTy] at h
+  | .array t, v, D, val, hty, hwf, _, hser, _ => by
+    obtain ⟨a, b, c⟩ := whole_proj fs (.array t) v hty hwf (by simp) (by simp) (by simp) rfl
+    rw [a, b]; exact ⟨hty, fun s hs => by rw [c]; exact hser s hs⟩
+  | .set t, v, D, val, hty, hwf, _, hser, _ => by
+    obtain ⟨a, b, c⟩ := whole_proj fs (.set t) v hty hwf (by simp) (by simp) (by simp) rfl
+    rw [a, b]; exact ⟨hty, fun s hs => by rw [c]; exact hser s hs⟩
+  | .map k w, v, D, val, hty, hwf, _, hser, _ => by
+    obtain ⟨a, b, c⟩ := whole_proj fs (.map k w) v hty hwf (by simp) (by simp) (by simp) rfl
+    rw [a, b]; exact ⟨hty, fun s hs => by rw [c]; exact hser s hs⟩
+  | .union ts, v, D, val, hty, hwf, _, hser, _ => by
+    obtain ⟨a, b, c⟩ := whole_proj fs (.union ts) v hty hwf (by simp) (by simp) (by simp) rfl
+    rw [a, b]; exact ⟨hty, fun s hs => by rw [c]; exact hser s hs⟩
 
 mutual
 theorem pspec : ∀ P : Proj, PSpec P
   | .all => by
-    intro t v D val _ hty _ hser _
+    intro t v D val hty _ _ hser _
     exact ⟨by simp [projVec, projTy, hty], fun s hs => by simpa [projVec, projVal] using hser s hs⟩
   | .fields fs => fieldsCase fs (fspec fs)
 theorem fspec : ∀ fs : PFields, FSpec fs
@@ -361,40 +464,17 @@ theorem fspec : ∀ fs : PFields, FSpec fs
     intro rfs rtys len D rows _ _ _ _ _
     exact ⟨by simp [projFieldVecs, projFieldTys, fvecTypes], fun s _ => by simp [projFieldVecs, projFieldVals, serializeFields]⟩
   | .cons a p rest => by
-    intro rfs rtys len D rows hflat hty hwf hser hconf
-    obtain ⟨r1, r2⟩ := fspec rest rfs rtys len D rows hflat hty hwf hser hconf
-    rcases lookup_compat a rfs rtys hty hflat hwf with ⟨h1, h2⟩ | ⟨fv, i, ft, h1, h2, h3, h4, h4', h5, h6⟩
+    intro rfs rtys len D rows hty hwf hec hser hconf
+    obtain ⟨r1, r2⟩ := fspec rest rfs rtys len D rows hty hwf hec hser hconf
+    rcases lookup_compat a rfs rtys hty hwf hec with ⟨h1, h2⟩ | ⟨fv, i, ft, h1, h2, h3, h4, h4', h5, h6⟩
     · refine ⟨by simp [projFieldVecs, projFieldTys, fvecTypes, h1, h2, r1, vecType_missing], ?_⟩
       intro s hs
       simp [projFieldVecs, projFieldVals, serializeFields, h1, h2, r2 s hs, serialize]
-    · obtain ⟨q1, q2⟩ := pspec p ft fv D (fun s => (rows s).getD i .null) h4 h3 h4'
+    · obtain ⟨q1, q2⟩ := pspec p ft fv D (fun s => (rows s).getD i .null) h3 h4 h4'
         (fun s hs => h5 s (rows s) (hser s hs)) (fun s hs => h6 (rows s) (hconf s hs))
       refine ⟨by simp [projFieldVecs, projFieldTys, fvecTypes, h1, h2, r1, q1], ?_⟩
       intro s hs
       simp [projFieldVecs, projFieldVals, serializeFields, h1, h2, r2 s hs, q2 s hs]
 end
-
-/-- **projection soundness on the flat fragment.** -/
-theorem projection_sound_flat (paths : List (List Bytes)) (t : Ty) (hflat : flatTy t = true)
-    (vs : List Val) (hconf : ∀ v ∈ vs, conforms t v = true) :
-    ∃ v, load (enc t vs) none 0 none = some v ∧
-      vecType (projVec (mkProj paths) v) = projTy (mkProj paths) t ∧
-      ∀ i, i < vs.length →
-        serialize (projVec (mkProj paths) v) i = (vs[i]?).map (projVal (mkProj paths) t) := by
-  obtain ⟨v, hv, hty, _, hs, _⟩ := load_top_flat t hflat vs hconf
-  have hwf := load_wf _ _ _ _ v (enc_leafOK t vs) hv
-  obtain ⟨a, b⟩ := pspec (mkProj paths) t v (fun i => i < vs.length) (fun i => vs.getD i .null) hflat hty hwf
-    (by
-      intro i hi
-      rw [hs i hi, List.getElem?_eq_getElem hi]
-      simp [List.getD_eq_getElem?_getD, List.getElem?_eq_getElem hi])
-    (by
-      intro i hi
-      simp only [List.getD_eq_getElem?_getD, List.getElem?_eq_getElem hi, Option.getD_some]
-      exact hconf _ (List.getElem_mem hi))
-  refine ⟨v, hv, a, ?_⟩
-  intro i hi
-  rw [b i hi, List.getElem?_eq_getElem hi]
-  simp [List.getD_eq_getElem?_getD, List.getElem?_eq_getElem hi]
 
 end Zed.Vng
